@@ -676,7 +676,7 @@ def _v_assume(I, a):
         if not (c & 1): raise Vacuous('assumption false on this path')
         return None
     e = to_bool(c)
-    if not I.feasible(e): raise Vacuous('assumption infeasible on this path')
+    if not I.feasible(e): raise Vacuous('assumption infeasible on this path: ' + str(z3.simplify(e))[:300])
     I.add_pc(e); return None
 @ext('verif_stop')
 def _v_stop(I, a): raise PathEnd()
